@@ -12,6 +12,7 @@ import PowHsm.Spec.C11
 import PowHsm.Spec.C01
 import PowHsm.Spec.C05
 import PowHsm.Spec.C13
+import PowHsm.Spec.C09
 namespace PowHsm
 namespace Ops
 open Ledger Comm Dongle Spec
@@ -133,6 +134,29 @@ def devViewOfJson (j : Json) : Option Spec.C13.DevView := do
          hbHash := ← bytes "hb_hash", hbPub := ← bytes "hb_pub",
          modeBefore := ← nat "mode_before", modeAfter := ← nat "mode_after" }
 
+/-- C09: bring-up -/
+def bringup (input implOut : Json) : Option (Json × Bool) := do
+  let w ← worldOfJson input
+  let r := Ledger.bringUp w
+  let outcome ← (match r.val with | .ok s => some s | .error _ => none)
+  let model := Json.obj [("events", evsToJson r.evs), ("outcome", .str outcome),
+    ("pin", match r.w.pin with | some p => Json.ofBytes p.pin | none => .null)]
+  let ievs ← evsOfJson? (← implOut.get? "events")
+  let iout ← (← implOut.get? "outcome").asStr?
+  let needs := match w.pin with | some p => p.needsChange | none => false
+  let truth : Option Spec.C09.Truth := (input.get? "truth").bind fun t => do
+    let nat (k : String) : Option Nat := (t.get? k).bind Json.asNat?
+    let ver (k : String) : Option (Nat × Nat × Nat) := do
+      match (← t.get? k) with
+      | .arr [a, b, c] => pure ((← a.asNat?), (← b.asNat?), (← c.asNat?))
+      | _ => none
+    pure { onboarded := ← nat "onboarded", mode := ← nat "mode", uiVersion := ← ver "ui_version",
+           appVersion := ← ver "app_version", retries := ← nat "retries",
+           echoOk := ← (← t.get? "echo_ok").asBool?, unlockOk := ← (← t.get? "unlock_ok").asBool?,
+           afterExitMode := ← nat "after_exit_mode", hasPin := ← (← t.get? "has_pin").asBool?,
+           network := ← nat "network" }
+  pure (model, Spec.C09.c09 w.script needs truth { events := ievs, outcome := iout })
+
 def run (op : String) (input implOut : Json) : Option (Json × Bool) :=
   match op with
   | "unsign" => unsign input implOut
@@ -157,6 +181,7 @@ def run (op : String) (input implOut : Json) : Option (Json × Bool) :=
   | "line.C13" => line (fun i o => match i.get? "request", (i.get? "devstate").bind devViewOfJson with
       | some j, some d => Spec.C13.c13 j d o
       | _, _ => false) input implOut
+  | "bringup" => bringup input implOut
   | _ => none
 
 end Ops
